@@ -1,4 +1,5 @@
 use super::scope::collect_zones_for_scope;
+use crate::command::types::CompareOp;
 use crate::engine::core::filter::filter_group::FilterGroup;
 use crate::engine::core::read::index_strategy::IndexStrategy;
 use crate::engine::core::zone::selector::pruner::enum_pruner::EnumPruner;
@@ -68,6 +69,11 @@ impl<'a> ZoneSelector for FieldSelector<'a> {
                 IndexStrategy::TemporalEq { .. } | IndexStrategy::TemporalRange { .. } => {
                     if let Some(z) = self.temporal_pruner.apply_temporal_only(&args) {
                         candidate_zones = z;
+                    } else if matches!(operation, Some(CompareOp::Neq) | Some(CompareOp::In)) {
+                        // The temporal index only answers `=` and ranges: for `!=` it says nothing
+                        // about the zones, so none may be ruled out (the row filter decides).
+                        candidate_zones =
+                            collect_zones_for_scope(self.qplan, self.caches, segment_id, Some(uid));
                     } else {
                         return Vec::new();
                     }
@@ -75,6 +81,11 @@ impl<'a> ZoneSelector for FieldSelector<'a> {
                 IndexStrategy::EnumBitmap { .. } => {
                     if let Some(z) = self.enum_pruner.apply(&args) {
                         candidate_zones = z;
+                    } else if matches!(operation, Some(CompareOp::Neq)) {
+                        // `field != "x"` with a variant the bitmap does not know matches every
+                        // row: no zone may be ruled out.
+                        candidate_zones =
+                            collect_zones_for_scope(self.qplan, self.caches, segment_id, Some(uid));
                     } else {
                         return Vec::new();
                     }
@@ -95,7 +106,11 @@ impl<'a> ZoneSelector for FieldSelector<'a> {
                     }
                 }
                 IndexStrategy::ZoneXorIndex { .. } => {
-                    if let Some(z) = self.xor_pruner.apply_zone_index_only(&args) {
+                    if !matches!(operation, Some(CompareOp::Eq)) {
+                        // The zone XOR index only answers `=`: for `!=` it cannot rule out a zone.
+                        candidate_zones =
+                            collect_zones_for_scope(self.qplan, self.caches, segment_id, Some(uid));
+                    } else if let Some(z) = self.xor_pruner.apply_zone_index_only(&args) {
                         candidate_zones = z;
                     } else if self.qplan.is_segment_inflight(segment_id) {
                         debug!(
@@ -111,7 +126,10 @@ impl<'a> ZoneSelector for FieldSelector<'a> {
                     }
                 }
                 IndexStrategy::XorPresence { .. } => {
-                    if let Some(z) = self.xor_pruner.apply_presence_only(&args) {
+                    if !matches!(operation, Some(CompareOp::Eq)) {
+                        candidate_zones =
+                            collect_zones_for_scope(self.qplan, self.caches, segment_id, Some(uid));
+                    } else if let Some(z) = self.xor_pruner.apply_presence_only(&args) {
                         candidate_zones = z;
                     } else {
                         return Vec::new();
